@@ -483,6 +483,22 @@ theorem C17_ext_sharding_named (p : GraphE) (w : WorldE) (h : deserializeE p = .
       v < w.st.nv ∧ ∃ t, t ≠ "" ∧ (w.st.vals v).name = some t :=
   deserializeE_devsOK p w h
 
+/-- **C17_ext_erasure_model**: `C17_ext_erasure` for models with functions (IR version >= 10 format): main graph
+    and function bodies; the functions dict of the extended run is the functions dict of the core run. -/
+theorem C17_ext_erasure_model (p : ModelE) :
+    (match deserializeME p with
+      | .ok w => deserializeM (eraseM p) = .ok w.core
+      | .error e => deserializeM (eraseM p) = .error e) :=
+  deserializeME_erase p
+
+/-- **C17_ext_sharding_named_model**: `C17_ext_sharding_named` for models with functions: also in function bodies
+    (whose scope is the function's own: inputs, node outputs, placeholders) every resolved sharding value is an
+    allocated, named value. -/
+theorem C17_ext_sharding_named_model (p : ModelE) (w : MWorldE) (h : deserializeME p = .ok w) :
+    ∀ n d, d ∈ w.ext.devs n → ∀ s ∈ d.specs, ∀ v, s.1 = ShardV.val v →
+      v < w.st.nv ∧ ∃ t, t ≠ "" ∧ (w.st.vals v).name = some t :=
+  deserializeME_devsOK p w h
+
 /-- **C17_total_ext**: the extended deserializer is total (structural recursion, no fuel) -/
 theorem C17_total_ext (p : GraphE) :
     (∃ w, deserializeE p = .ok w) ∨ (∃ e, deserializeE p = .error e) := by
@@ -625,5 +641,19 @@ def exampleExtChk : Bool :=
   | .error _ => false
 
 example : exampleExtChk = true := by decide +kernel
+
+/-- a model with a function whose node carries a device configuration naming the function input `a` (resolved),
+    the placeholder `zz` (resolved: created by the node's own input list) and `other` (fresh) -/
+def exampleExtModel : ModelE :=
+  ⟨exampleExt, [⟨⟨"dom", "f", ""⟩, ["a"], ["c"], [⟨"c", { ty := some "f32" }, [("m", "1")]⟩],
+    [ .mk ["a", "zz"] ["c"] [⟨"cfg0", none, [("a", "t0"), ("zz", "t1"), ("other", "t2")]⟩] [] ]⟩]⟩
+
+def exampleExtModelChk : Bool :=
+  match deserializeME exampleExtModel with
+  | .ok w => (w.ext.devs 1).map (·.specs.map (·.1)) == [[ShardV.val 3, ShardV.val 5, ShardV.fresh "other"]] &&
+      w.ext.vmeta 4 == [("m", "1")]
+  | .error _ => false
+
+example : exampleExtModelChk = true := by decide +kernel
 
 end IrVerif.Scope
